@@ -117,6 +117,25 @@ PLAN = {
               "bounded stand-ins for N<=2 devices with symbolic link reports and N=3 chain with symbolic link delays (thorough) - labelled bounded, not counted as proved",
         note="write_dc_parameters offset expression and the reference-clock clause (async fns) not decided here; N>3 device trees not explored",
     ),
+    "C08": dict(
+        verus=["pdi_config"], kani=[], level="proof",
+        claim="PdiOffset::{increment, increment_byte_aligned, up_to} (ceil(bits/8) bytes, no overflow under the stated bound) and SubDeviceRef::write_fmmu_config, "
+              "verbatim (Verus): the FMMU written goes to THIS device's own station address and the register of the chosen FMMU, maps "
+              "[offset_before, +SM length) onto the sync manager's physical start with read/write enable per direction (or extends an already enabled "
+              "mapping by the SM length, refusing > 65535), and the running offset advances by exactly ceil(bits/8)",
+        note="NOT decided here: the SM loops of configure_pdos_eeprom / configure_pdos_coe (iterator adapters: bit-length sums, oversampling), the group-level "
+             "configure_fmmus loops (inputs before outputs, PdiTooLong), into_pre_op's group offsets and the PDI guards - the claim is narrowed to the "
+             "leaf that programs the FMMU; ESC hardware semantics assumed",
+    ),
+    "C10": dict(
+        verus=["group_cycle", "wrapped"], kani=[], level="proof",
+        claim="SubDeviceGroup::is_state, verbatim (Verus, any group size, any frame size >= one state check): Ok(true) only if EVERY SubDevice of the group "
+              "answered an AL-status read addressed to its own configured address with the requested state; the loop terminates and checks exactly len() "
+              "devices (the debug_assert is proved); push_state_checks sends the reads in group order; the checked exchanges it rests on are the C11 contracts",
+        note="network = echo-shape assumption (a reply has the datagram boundaries of the request; contents arbitrary). NOT decided: transition_to's request loop "
+             "(iter_mut adapter), wait_for_state's timeout wrapper (async block + TimeoutFuture), request_subdevice_state_nowait, MainDevice::wait_for_state and "
+             "the TxRxResponse summaries",
+    ),
     "C11": dict(
         verus=["wrapped"], kani=["wkc"], level="proof",
         claim="ReceivedPdu::wkc/maybe_wkc proved for every counter/expected value (Kani, loop-free, complete); WrappedRead/WrappedWrite "
